@@ -39,6 +39,13 @@ def run(ctx, rep):
     cfg = ctx.cfg(call)
     aps = [(n, c) for n, c in node_calls(cfg, "append") if recv_text(c) == "self._runner_removals"]
     if len(aps) != 1:
+        foreign = sorted({f.qual for f, s in stores if f.qual != "SimulatedMiddleware.__init__"} | {f.qual for f, c2, m in purged})
+        if foreign:
+            # the registry is rebuilt / purged instead of extended: removals applied earlier (in this or another
+            # market of the run) are forgotten and applied again
+            rep.violation("R1", key(call, None, "applied removals are only ever added to the registry"), call, None,
+                          "self._runner_removals is rebound or purged in %s" % foreign)
+            return
         raise AnalysisError("SimulatedMiddleware.__call__: registration of a removal not found")
     n, c = aps[0]
     keyname = utext(c.args[0])
@@ -179,9 +186,28 @@ def run(ctx, rep):
         rets = [cfgl.nodes[x] for x in r if cfgl.nodes[x].kind == "return"]
         good = good and len(rets) == 1 and "FAILURE" in rets[0].text(200)
     rep.check(good, "R5", key(pl, None, "placement on a removed runner fails before any matching or queueing"), pl)
+    # ... for every order type: no response other than a FAILURE is produced without the runner having been
+    # looked at (an accepted starting-price order on a removed runner would never be voided: its removal has
+    # been applied already)
+    if len(rem) == 1:
+        from sa.kinds import guard_pairs
+        n_acc, bad_acc = 0, []
+        for n in cfgl.live_nodes():
+            if n.kind == "return" and isinstance(n.ast.value, ast.Call) and call_name(n.ast.value) == "_create_place_response":
+                kws = {k.arg: utext(k.value) for k in n.ast.value.keywords}
+                if kws.get("status") == "'FAILURE'":
+                    continue
+                n_acc += 1
+                if ("runner.status == 'REMOVED'", False) not in guard_pairs(cfgl, n.id):
+                    bad_acc.append(n.lineno)
+        rep.check(not bad_acc and n_acc >= 3, "R5", key(pl, None, "no order type is accepted without the removed-runner test"), pl, None,
+                  "accepting returns not behind the test: lines %s" % bad_acc)
 
 
 MUTANTS = [
+    dict(id="c09-removed-test-limit-only", file="flumine/simulation/simulatedorder.py", func="SimulatedOrder.place",
+         old="        if runner.status == \"REMOVED\":", new="        if runner.status == \"REMOVED\" and self.order.order_type.ORDER_TYPE == OrderTypes.LIMIT:",
+         expect=["R5"], why="starting-price orders are accepted on a removed runner and never voided"),
     dict(id="c09-void-live-only", file=MW, func="SimulatedMiddleware._process_runner_removal",
          old="        for order in market.blotter:", new="        for order in market.blotter.live_orders:", expect=["R3"],
          why="completed orders keep their fills on a removed runner"),
